@@ -40,15 +40,32 @@ def strategy(tier):
         name = draw(st.sampled_from(mrun.ALL))
         b = draw(st.sampled_from(model.BIN_TYPES))
         nthr = draw(st.integers(1, 3))
-        return {"spec": spec, "metric": name, "axis": draw(st.sampled_from(AXES)), "type": draw(st.sampled_from(["csv", "csv", "text"])),
+        axis = draw(st.sampled_from(AXES))
+        if mrun.kind_of(name) in ("thr", "detr", "pthr", "q1") and draw(st.sampled_from([False, False, True])):
+            axis = "threshold"          # the axis whose rows follow the order given on the command line
+        return {"spec": spec, "metric": name, "axis": axis, "type": draw(st.sampled_from(["csv", "csv", "text"])),
                 "to_file": draw(st.booleans()), "leg": draw(st.booleans()), "acc": draw(st.sampled_from([False, False, True])),
                 "kind": draw(st.sampled_from(["text", "netcdf"])), "bin_type": b, "nthr": nthr,
-                "thr_seed": draw(st.lists(st.integers(-12, 12), min_size=3, max_size=3, unique=True))}
+                "thr_seed": draw(st.lists(st.integers(-12, 12), min_size=3, max_size=3, unique=True)),
+                "thr_perm": draw(st.sampled_from([None, None, [2, 0, 1], [1, 0, 2], [2, 1, 0], [0, 2, 1]]))}
     return s()
 
 
 def metric_args(case):
     """-> (argv fragment, thresholds, bin_type) or None when the metric does not apply to the dataset."""
+    out = _metric_args(case)
+    perm = case.get("thr_perm")
+    if out is None or not perm or out[1] is None or out[2] in model.WITHIN_TYPES or out[0][0] != "-r" or len(out[1]) < 2:
+        return out
+    # thresholds given in another order than ascending (rows must follow the order given); one-sided events only
+    T = out[1]
+    T2 = [T[i] for i in perm if i < len(T)]
+    if T2 == T:
+        return out
+    return ["-r", ",".join(repr(float(t)) for t in T2)] + out[0][2:], T2, out[2]
+
+
+def _metric_args(case):
     spec, name = case["spec"], case["metric"]
     kind = mrun.kind_of(name)
     axis = case["axis"]
